@@ -156,9 +156,20 @@ func runC12(ctx *report.Ctx) {
 		"call": func(g *progGen) *yc.Stmt { return yc.Call("note", yc.ENumber(float64(g.lineNo))) },
 		"setn": func(g *progGen) *yc.Stmt { return yc.Set("n", "=", yc.ENumber(float64(1+g.lineNo))) },
 		"dcmd": func(g *progGen) *yc.Stmt { return yc.Command("later", yc.CmdArg{Word: fmt.Sprint(g.lineNo)}) },
+		// commands that report completion by closing their channel (at once / after the first poll)
+		"ccmd": func(g *progGen) *yc.Stmt {
+			return yc.Command([]string{"laterclose", "closed"}[g.c.Choose(2, "close-kind")], yc.CmdArg{Word: fmt.Sprint(g.lineNo)})
+		},
+		// stop written with arguments: they are evaluated and the dialogue stops all the same
+		"stopargs": func(g *progGen) *yc.Stmt {
+			if g.c.Choose(2, "stop-arg") == 0 {
+				return yc.Command("stop", yc.CmdArg{Word: "now"})
+			}
+			return yc.Command("stop", yc.CmdArg{E: yc.EVariable("f")})
+		},
 	}
 	part(ctx, "E1", -1, func(c *explore.Chooser) {
-		g := &progGen{c: c, rem: size, kinds: []string{"line", "opts", "if", "stop", "cmd", "setn", "jump", "call", "dcmd"}, maxDepth: 2, maxOpts: 2, maxCl: 1, conds: condsF[:2], extra: extra}
+		g := &progGen{c: c, rem: size, kinds: []string{"line", "opts", "if", "stop", "cmd", "setn", "jump", "call", "dcmd", "ccmd", "stopargs"}, maxDepth: 2, maxOpts: 2, maxCl: 1, conds: condsF[:2], extra: extra}
 		p := g.program(report.Pick(ctx, 1, 2))
 		if !c.Mine() {
 			return
@@ -175,7 +186,7 @@ func runC12(ctx *report.Ctx) {
 			n++
 			switch c.Choose(3, "effect") {
 			case 0:
-				return []*yc.Stmt{yc.Command("act", yc.CmdArg{Word: fmt.Sprint(n)}), yc.Line(fmt.Sprintf("L%d", n))}
+				return []*yc.Stmt{yc.Command([]string{"act", "laterclose"}[n%2], yc.CmdArg{Word: fmt.Sprint(n)}), yc.Line(fmt.Sprintf("L%d", n))}
 			case 1:
 				return []*yc.Stmt{yc.Set("n", "=", yc.ENumber(float64(n))), yc.Call("note", yc.ENumber(float64(n)))}
 			}
@@ -195,9 +206,13 @@ func runC12(ctx *report.Ctx) {
 					body = append(body, yc.If(&yc.Clause{Cond: yc.EBoolean(false), Body: eff()}, &yc.Clause{Body: shape(d - 1)}))
 				}
 			} else {
-				switch c.Choose(3, "tail") {
+				switch c.Choose(5, "tail") {
 				case 0:
 					body = append(body, yc.Stop())
+				case 3:
+					body = append(body, yc.Command("stop", yc.CmdArg{Word: "now"}))
+				case 4:
+					body = append(body, yc.Command("stop", yc.CmdArg{E: yc.EVariable("f")}))
 				case 1:
 					body = append(body, yc.Options(&yc.Option{Line: yc.TextLine("Ox")}, &yc.Option{Line: yc.TextLine("Oy"), Body: eff()}))
 				}
